@@ -343,9 +343,26 @@ func assignFields(prefix string, t types.Type, model map[string]string, keys []s
 	return true
 }
 
+// replayTemplates: witness templates per function (obligation family) for obligations whose failing state is not
+// a function input (loop iterations, ghost state). They build an end-to-end test from the model.
+var replayTemplates = map[string]func(o *oblOutcome) (pkgRel, src string, ok bool){}
+
 func tryReplay(L *Loaded, opt runOpts, id string, o *oblOutcome) *replayOutcome {
 	if o == nil || o.unit == nil || o.unit.fn == nil {
 		return nil
+	}
+	if tpl, ok := replayTemplates[o.unit.Func]; ok {
+		rel, src, ok := tpl(o)
+		if !ok {
+			return &replayOutcome{Why: "the witness template of this obligation family could not be instantiated from the model"}
+		}
+		ro := &replayOutcome{Attempted: true, Test: src, Pkg: rel}
+		out, confirmed := runReplayTest(opt, rel, src)
+		ro.Output, ro.Confirmed = out, confirmed
+		if !confirmed {
+			ro.Why = "the witness built from the model did not fail on the real code"
+		}
+		return ro
 	}
 	fn := o.unit.fn
 	if fn.Parent() != nil || len(fn.TypeArgs()) > 0 {
@@ -482,3 +499,54 @@ func runReplayTest(opt runOpts, pkgRel, src string) (string, bool) {
 }
 
 func extraJobsImpl(L *Loaded, id string, opt runOpts) []unitJob { return nil }
+
+func modelRune(o *oblOutcome) (int64, bool) {
+	v, ok := o.r.Model["range-rune"]
+	if !ok {
+		return 0, false
+	}
+	r, ok := parseSexpNum(v)
+	if !ok || !r.IsInt() {
+		return 0, false
+	}
+	n := r.Num().Int64()
+	if n < 0 || n > 0x10FFFF || (n >= 0xD800 && n < 0xE000) {
+		return 0, false
+	}
+	return n, true
+}
+
+func init() {
+	// C17: the string consisting of the offending rune must survive Export -> encoding/json
+	replayTemplates["value/export.jsonExporter.String"] = func(o *oblOutcome) (string, string, bool) {
+		r, ok := modelRune(o)
+		if !ok {
+			return "", "", false
+		}
+		src := fmt.Sprintf(`package export
+
+import (
+	"bytes"
+	"encoding/json"
+	"testing"
+)
+
+func TestVerifReplay(t *testing.T) {
+	s := "a" + string(rune(%d)) + "b"
+	var b bytes.Buffer
+	j := jsonExporter{b: &b}
+	if err := j.String(s); err != nil {
+		t.Fatalf("REPLAY-CONFIRMED: error %%v", err)
+	}
+	var out string
+	if err := json.Unmarshal(b.Bytes(), &out); err != nil {
+		t.Fatalf("REPLAY-CONFIRMED: not valid JSON: %%q: %%v", b.String(), err)
+	}
+	if out != s {
+		t.Fatalf("REPLAY-CONFIRMED: decodes to %%q, want %%q", out, s)
+	}
+}
+`, r)
+		return "value/export", src, true
+	}
+}
